@@ -95,7 +95,7 @@ def tensor_of(state_obj):
 @contract
 class HasReqRemotePerm(Contract):
     qualname = "nasim.envs.network.Network.has_required_remote_permission"
-    tags = {"": ("C02", "C01", "C07", "C12", "C14")}
+    tags = {"": ("C02", "C01", "C07", "C12", "C14", "C17")}
 
     def variants(self):
         return list(V.KINDS)
@@ -164,7 +164,7 @@ class HasReqRemotePermLoop(LoopContract):
 @contract
 class TrafficPermitted(Contract):
     qualname = "nasim.envs.network.Network.traffic_permitted"
-    tags = {"": ("C02", "C01", "C07", "C12", "C14")}
+    tags = {"": ("C02", "C01", "C07", "C12", "C14", "C17")}
 
     def concretize(self, I, S):
         from . import dyn_cex
@@ -706,8 +706,9 @@ def net_spec(sig, a, T, U, T_ss, T_ur):
 
 @contract
 class NetPerformAction(Contract):
+    may_draw = True      # at most one draw, exactly as C07 states
     qualname = "nasim.envs.network.Network.perform_action"
-    tags = {"C01": ("C01",), "C02": ("C02",), "C03": ("C03",), "C04": ("C04", "C20"), "C05": ("C05", "C20"), "C07": ("C07",),
+    tags = {"C01": ("C01",), "C02": ("C02", "C17"), "C03": ("C03",), "C04": ("C04", "C20"), "C05": ("C05", "C20"), "C07": ("C07",),
             "C13": ("C13",), "C14": ("C14",),
             "spec": ("C01", "C02", "C03", "C04", "C05", "C06", "C07", "C12", "C13", "C14"),
             "raises": ("C01", "C02", "C07", "C10"), "frame": ("C04", "C13")}
